@@ -3,9 +3,34 @@ import hashlib
 import threading
 import time
 
-import ecdsa._rwlock as RW
+import importlib.util
+import sys
+import types
+
+import ecdsa._rwlock as RW_REAL
 
 from vf import sched as S
+
+
+def _load_virtual():
+    """A private instance of the real _rwlock.py, executed with the name `threading` bound to the
+    shim from its very first statement, so that every lock the module ever creates - including
+    ones made at import or def time (default arguments, class attributes) - is virtual."""
+    spec = importlib.util.find_spec("ecdsa._rwlock")
+    with open(spec.origin) as f:
+        src = f.read()
+    mod = types.ModuleType("ecdsa._rwlock_vf")
+    mod.__file__ = spec.origin
+    real = sys.modules["threading"]
+    sys.modules["threading"] = S.ShimThreading()
+    try:
+        exec(compile(src, spec.origin, "exec"), mod.__dict__)
+    finally:
+        sys.modules["threading"] = real
+    return mod
+
+
+RW = _load_virtual()
 
 ID = "C20"
 RULE = ("the real RWLock runs on real threads whose mutex class is replaced (inside ecdsa._rwlock's namespace only) by a virtual "
@@ -70,11 +95,11 @@ class Mon(object):
 
 
 def _install_shim():
-    RW.threading = S.ShimThreading()
+    pass    # RW is permanently bound to the virtual lock (see _load_virtual)
 
 
 def _restore():
-    RW.threading = threading
+    pass
 
 
 def one_run(r, w, rounds, decider, hooks=None, trace=False):
@@ -115,7 +140,7 @@ def one_run(r, w, rounds, decider, hooks=None, trace=False):
             s.spawn(writer("W%d" % i), "W%d" % i)
     if hooks is not None:
         hooks.sched = s
-    ok = s.run(timeout=30.0)
+    ok = s.run(timeout=10.0)
     if hooks is not None:
         hooks.sched = None
     S.VLock.sched = None
@@ -178,6 +203,8 @@ def judge(ctx, cls, cfg, s, mon, lock, ok, seen, witness):
         if s.aborted == "watchdog":
             ctx.count("watchdog_inconclusive")
             ctx.note("watchdog fired on config %r" % (cfg,))
+            if ctx.counters["watchdog_inconclusive"] >= 2:
+                raise RuntimeError("scheduler watchdog fired twice (a thread blocked on something the scheduler does not control): inconclusive")
         elif s.aborted == "step limit":
             ctx.violation("no_progress", "r=%d w=%d: step limit reached" % cfg, wit, rp)
     else:
@@ -292,7 +319,6 @@ def run(ctx, name, kind, **kw):
                     probs = quiescent(lock)
                     ctx.check(not probs, "not_quiescent_after_release", "share probe: %s" % probs, dict(k=k, decisions=s.decisions))
         elif kind == "free":
-            _restore()
             free_running(ctx, rng, kw["rounds"])
     finally:
         S.VLock.sched = None
@@ -306,7 +332,7 @@ def free_running(ctx, rng, rounds):
     import sys
     old = sys.getswitchinterval()
     sys.setswitchinterval(1e-6)
-    lock = RW.RWLock()
+    lock = RW_REAL.RWLock()
     mu = threading.Lock()
     inside = []
     bad = []
